@@ -62,7 +62,7 @@ def run_requests(ck, exe, reqs, jobs):
         for (p, a, b, op, ts) in running:
             rc = p.poll()
             if rc is None:
-                if time.time() - ts > 900 * (b - a):      # the harness limits the CPU of each request itself (120 s)
+                if time.time() - ts > 3000 * (b - a):      # the harness limits the CPU of each request itself (600 s)
                     p.kill()
                     raise Broken("harness fit_run stuck on requests %d..%d" % (a, b))
                 still.append((p, a, b, op, ts))
@@ -308,7 +308,7 @@ def run(tier):
         "the optimiser is a black box: no claim about the quality of the fit, only the contract of the returned model",
         "experimental values are generated by the harness from closed-form nested models (deterministic pseudo-noise from VERIF_SEED), not computed from data",
         "tolerances (FitContract.tla): eigenvalue >= -1e-8 trace, constraint met to 2e-6 + 1e-6 |bound|, ranges equal to 1e-6, rotations to 2e-5, reload to 1e-9",
-        "a C++ exception leaving the entry point counts as a reported failure; abort / crash / more than 60 s for one request is a violation",
+        "a C++ exception leaving the entry point counts as a reported failure; abort / crash / more than 600 s of CPU for one request is a violation",
         "angle constraints are judged modulo 180 degrees and only on anisotropic structures; one-sided angle bounds are not checkable",
         "requests refused by design (multivariate fit without Goulard, hence with a sill item; negative sill) are exempt from the vacuity guard"]
     log("[C17] %d requests: %d fitted, %d reported failure (%d by exception), %d crash/hang, %d rejected by the contract" %
